@@ -3,7 +3,7 @@
 // In-process ops (codec mode; the codec loop is single-threaded and each case first removes
 // the table's variables from the process environment, so cases do not see each other):
 //   cfgdef  <env>            set_default_values()
-//   cfgfile <env> <content>  read_config_file(Cursor(content), "")
+//   cfgfile <env> <content>  read_config_file(Cursor(content), "")   (`err` when it returns Err)
 //   cfgargs <env> <args>     CommandLineArgument::_parse(args, get_command_line_arg_list())
 //   cfgget  <env>            get_ip_port_thread_count(), get_request_allocation_size()
 // Fresh-process mode (`rws_harness config <cli…>`): the case IS the process — its environment,
@@ -101,9 +101,15 @@ pub fn dispatch(op: &str, f: &[String]) -> Option<String> {
             let (env, content) = match (f.get(0).and_then(|s| read_env(s)), f.get(1).and_then(|s| unhex(s))) {
                 (Some(e), Some(c)) if f.len() == 2 => (e, c), _ => return bad() };
             if std::str::from_utf8(&content).is_err() { return Some("badutf8".into()); }
-            Some(quiet(|| run_case(&env, false, true, move || {
-                let _ = read_config_file(std::io::Cursor::new(&content[..]), "".to_string());
-            })))
+            // an `Err` (nothing was applied) is reported as `err`: the caller drops it, the model answers `.err`
+            let failed = std::sync::Arc::new(std::sync::atomic::AtomicBool::new(false));
+            let flag = failed.clone();
+            let line = quiet(|| run_case(&env, false, true, move || {
+                if read_config_file(std::io::Cursor::new(&content[..]), "".to_string()).is_err() {
+                    flag.store(true, std::sync::atomic::Ordering::SeqCst);
+                }
+            }));
+            Some(if failed.load(std::sync::atomic::Ordering::SeqCst) && line.starts_with("ok") { "err".to_string() } else { line })
         }
         "cfgargs" => {
             let (env, words) = match (f.get(0).and_then(|s| read_env(s)), f.get(1).and_then(|s| read_words(s))) {
